@@ -400,7 +400,7 @@ class SymInt:
         f = sys._getframe(1)
         if f.f_code.co_filename.endswith("enum.py"):
             raise TypeError("unhashable type: 'SymInt'")
-        return hash(concretize(self))
+        return hash(concretize(self, limit=48))
 
     def _cmp(self, o, f, quick):
         zo = zint(o)
@@ -794,7 +794,10 @@ class SymBytes:
         return sym_not(self.__eq__(o))
 
     def hex(self, *a):
-        return "<symhex>"
+        if not has_sym(self.b):
+            return builtins.bytes(self.b).hex(*a)
+        from . import shims
+        return shims._symstr(SymBytes(self.b), "hex")
 
     def __repr__(self):
         return "<symbytes len=%d>" % len(self.b)
